@@ -273,9 +273,16 @@ def socket_lane(lane, rng, nstreams):
     orig = rp.ConnectedRemotePeer.handle_message_received
 
     def rec(self, header, message):
-        log.append((header.id, type(message).__name__))
+        # (what is delivered is judged AT delivery: the node is free to work on the message object afterwards)
+        try:
+            body = message.serialize()
+        except Exception as e:
+            body = repr(e).encode()
+        log.append((header.id, type(message).__name__, body))
         return orig(self, header, message)
     rp.ConnectedRemotePeer.handle_message_received = rec
+    from skepticoin.datatypes import Block
+    real_blocks = [Block.deserialize(raw_) for (_h, _i, raw_) in env.recorded_blocks()][:3]
     try:
         for _ in range(nstreams):
             net = simnet.Net(rng)
@@ -283,6 +290,15 @@ def socket_lane(lane, rng, nstreams):
             wire = simnet.Wire(net.clock)
             gen_id = node.lp.chain_manager.coinstate.current_chain_hash
             frames = [wire.hello(nonce=rng.randrange(1 << 32))]
+            if rng.random() < 0.35:
+                # an announcement of blocks followed by some of the blocks themselves (recorded blocks of the real network): the
+                # node crosses delivered blocks off the announcement it holds -- the same bytes arrive again on the next
+                # connections of this node and must be extracted as what they say
+                frames.append(wire.frame(ms.InventoryMessage([ms.InventoryItem(ms.DATA_BLOCK, b_.hash()) for b_ in real_blocks]),
+                                         in_response_to=rng.choice([0, 5])))
+                for b_ in real_blocks[:rng.choice([1, 2])]:
+                    frames.append(wire.block(b_))
+                lane.c["streams_with_announcement_and_blocks"] = lane.c.get("streams_with_announcement_and_blocks", 0) + 1
             for _k in range(rng.randint(1, 5)):
                 kind = rng.randrange(6)
                 m = [ms.GetPeersMessage(), ms.GetBlocksMessage([gen_id]), ms.GetBlocksMessage([objgen.h32(rng)]),
@@ -299,6 +315,7 @@ def socket_lane(lane, rng, nstreams):
                 frames[at] = frames[at][:8 + ref.MSG_HEADER_LEN] + b"\x7f\x7f" + frames[at][8 + ref.MSG_HEADER_LEN + 2:]
             stream = b"".join(frames)
             exp_ids, exp_refuse = expected(stream, ms)
+            exp_bodies = [p_[ref.MSG_HEADER_LEN:] for p_ in ref.parse_frames(stream)[0]][:len(exp_ids)]
             for rep in range(6):
                 raw = net.raw_connect(node, src=("10.4.4.%d" % (rep + 1), 43000 + rep))
                 del log[:]
@@ -327,8 +344,16 @@ def socket_lane(lane, rng, nstreams):
                 lane.c["socket_lane_fragmentations"] += 1
                 lane.c["fragmentations"] += 1
                 lane.distinct += 1
-                got = [i for i, _n in log]
+                got = [x[0] for x in log]
                 w = {"stream": stream.hex(), "cuts": [], "corrupt": corrupt, "lane": "socket", "sizes": sizes[:50], "timers_between_reads": timers}
+                if got == exp_ids:
+                    for k_, (x, eb) in enumerate(zip(log, exp_bodies)):
+                        lane.c["delivered_bodies_compared"] = lane.c.get("delivered_bodies_compared", 0) + 1
+                        if x[2] != eb:
+                            lane.v("socket-lane:delivered-message-is-not-what-the-bytes-say", "message #%d (%s) of the stream, on connection "
+                                   "#%d of this node: the message handed to the node encodes to %d bytes, the frame carried %d (read sizes "
+                                   "%s)" % (k_, x[1], rep + 1, len(x[2]), len(eb), mode), w)
+                            break
                 closed = raw.peer.closed or raw.peer not in node.lp.selector.map
                 if got != exp_ids:
                     lane.v("socket-lane:delivered-sequence-differs", "through the socket path ids %s were delivered, reference "
